@@ -1083,6 +1083,27 @@ private:
     return out;
   }
 
+  // Return true if some callee's formal parameter appears also at the
+  // callsite but not (only) at the same position.
+  static bool has_name_clash(const callsite_t &cs, const fdecl_t &fdecl) {
+    std::set<variable_t> formals(fdecl.get_inputs().begin(),
+                                 fdecl.get_inputs().end());
+    formals.insert(fdecl.get_outputs().begin(), fdecl.get_outputs().end());
+    for (unsigned i = 0, e = cs.get_args().size(); i < e; ++i) {
+      if (formals.count(cs.get_args()[i]) > 0 &&
+          !(cs.get_args()[i] == fdecl.get_inputs()[i])) {
+        return true;
+      }
+    }
+    for (unsigned i = 0, e = cs.get_lhs().size(); i < e; ++i) {
+      if (formals.count(cs.get_lhs()[i]) > 0 &&
+          !(cs.get_lhs()[i] == fdecl.get_outputs()[i])) {
+        return true;
+      }
+    }
+    return false;
+  }
+
   /**
    * Extend operation
    *
@@ -1117,6 +1138,38 @@ private:
                           << "\tCaller before the call=" << caller_dom << "\n"
                           << "\tCallee exit=" << sum_out_dom << "\n";);
 
+    // The code below assumes that if a callee's formal parameter
+    // appears at the callsite then it appears at the same position
+    // (i.e., it is passed to itself). Otherwise, caller and callee use
+    // the same variable with different meanings (e.g., callee foo(x,y)
+    // and callsites foo(y,x) or x:=foo(z)). In that case, we first
+    // rename apart all the callee's parameters.
+    std::vector<variable_t> in_formals(fdecl.get_inputs());
+    std::vector<variable_t> out_formals(fdecl.get_outputs());
+    std::vector<variable_t> sum_out_vars(sum_out_variables);
+    if (has_name_clash(cs, fdecl)) {
+      auto rename_apart = [&sum_out_dom](std::vector<variable_t> &formals) {
+        for (unsigned i = 0, e = formals.size(); i < e; ++i) {
+          using varname_t = typename variable_t::varname_t;
+          auto &vfac = const_cast<varname_t *>(&(formals[i].name()))
+                           ->get_var_factory();
+          variable_t fresh(vfac.get(formals[i].name(), ".callee"),
+                           formals[i].get_type());
+          inter_transformer_helpers<AbsDom>::unify(sum_out_dom, fresh,
+                                                   formals[i]);
+          formals[i] = fresh;
+        }
+      };
+      rename_apart(in_formals);
+      rename_apart(out_formals);
+      sum_out_dom.forget(sum_out_vars);
+      sum_out_vars.clear();
+      sum_out_vars.insert(sum_out_vars.end(), in_formals.begin(),
+                          in_formals.end());
+      sum_out_vars.insert(sum_out_vars.end(), out_formals.begin(),
+                          out_formals.end());
+    }
+
     // make sure **output** actual parameters are unconstrained
     caller_dom.forget(cs.get_lhs());
 
@@ -1126,8 +1179,8 @@ private:
 
     // Wire-up outputs: propagate from callee's outputs to caller's
     // lhs of the callsite
-    for (unsigned i = 0, e = fdecl.get_outputs().size(); i < e; ++i) {
-      const variable_t &out_formal = fdecl.get_outputs()[i];
+    for (unsigned i = 0, e = out_formals.size(); i < e; ++i) {
+      const variable_t &out_formal = out_formals[i];
       const variable_t &out_actual = cs.get_lhs()[i];
       if (!(out_formal == out_actual)) {
         CRAB_LOG("inter-extend", crab::outs()
@@ -1156,9 +1209,9 @@ private:
     // Variables that appear both as callsite argument and callee's
     // formal parameter so they shouldn't be forgotten.
     std::vector<variable_t> caller_and_callee_vars;
-    caller_and_callee_vars.reserve(fdecl.get_inputs().size());
-    for (unsigned i = 0, e = fdecl.get_inputs().size(); i < e; ++i) {
-      const variable_t &in_formal = fdecl.get_inputs()[i];
+    caller_and_callee_vars.reserve(in_formals.size());
+    for (unsigned i = 0, e = in_formals.size(); i < e; ++i) {
+      const variable_t &in_formal = in_formals[i];
       if (cs_in_args.count(in_formal) > 0) {
         caller_and_callee_vars.push_back(in_formal);
       } else {
@@ -1187,7 +1240,7 @@ private:
 
     caller_and_callee_vars.insert(caller_and_callee_vars.end(),
                                   cs.get_lhs().begin(), cs.get_lhs().end());
-    auto local_vars = set_difference(sum_out_variables, caller_and_callee_vars);
+    auto local_vars = set_difference(sum_out_vars, caller_and_callee_vars);
     // Forget callee's local variables
     sum_out_dom.forget(local_vars);
 
